@@ -163,8 +163,8 @@ pub fn run(args: &[String]) {
         let (scen, next, fails, oks) = (scen.clone(), next.clone(), fails.clone(), oks.clone());
         hs.push(std::thread::spawn(move || loop {
             let i = next.fetch_add(1, Ordering::SeqCst);
-            if i >= scen.len() {
-                break;
+            if i >= scen.len() || fails.lock().unwrap().len() > 12 {
+                break; // enough evidence; a pool that never shuts down costs its full time-out per scenario
             }
             let (initial, max, n, gap) = scen[i];
             match scenario(initial, max, n, gap, i) {
